@@ -50,7 +50,34 @@ def lin(f, n):
                 return lscale(la, cb)
     if k == 'ParenExpr':
         return lin(f, n['kids'][0])
+    if k == 'DeclRefExpr' and n.get('dk') in ('local', 'var', None):
+        # a local that only ever holds one folded constant (`const size_t fixed_size = offsetof (...)`) is that constant
+        cv = _const_local(f, n['n'])
+        if cv is not None:
+            return {'': cv}
     return {f.s(n): 1}
+
+
+def _const_local(f, name):
+    cache = f.__dict__.setdefault('_const_locals', None)
+    if cache is None:
+        from .util import local_defs, assigned_lvalues
+        cache = {}
+        written = {lv for lv, a, r in assigned_lvalues(f)}
+        taken = {f.s(f.unwrap(f.N[x['kids'][0]])) for x in f.walk() if x['k'] == 'UnaryOperator' and x.get('op') == '&'}
+        params = {p_['n'] for p_ in f.params}
+        for nm, ds in local_defs(f).items():
+            if nm in params or nm in taken or len(ds) != 1 or ds[0] is None:
+                continue
+            d = f.unwrap(ds[0]) if isinstance(ds[0], dict) else f.unwrap(f.N[ds[0]])
+            v = d.get('v')
+            if v is None and isinstance(ds[0], dict):
+                v = ds[0].get('v')
+            # exactly one definition, and it is the initialiser (no later assignment)
+            if v is not None and sum(1 for lv in written if lv == nm) == 0:
+                cache[nm] = v
+        f.__dict__['_const_locals'] = cache
+    return cache.get(name)
 
 
 _tok = re.compile(r'\s*(->|[()+\-*/]|[^()+\-*/\s]+)')
